@@ -9,6 +9,7 @@ CONSTANTS
 CONSTRAINT Depth
 VIEW Real
 INVARIANT StepRefines
+INVARIANT BlocksRefine
 INVARIANT L1Disjoint
 INVARIANT L1Inside
 INVARIANT ArrIndexed
